@@ -787,6 +787,118 @@ def _renamed_functions(functions):
     return out
 
 
+def _lifetime_aliases(functions):
+    """{present name: known name} for functions whose printed name differs from a known one only in how a lifetime is spelled
+    (`impl Iterator for FindMatches<'_>` written as `impl<'h> Iterator for FindMatches<'h>`)."""
+    import os
+    try:
+        with open(os.path.join(os.path.dirname(__file__), "vocabulary.txt")) as fh:
+            voc = set(l.rstrip("\n") for l in fh if l.strip())
+    except OSError:
+        return {}
+    present = {f["name"] for f in functions}
+    norm = lambda n: re.sub(r"'\w+", "'_", n)
+    gone = {}
+    for v in voc:
+        if v not in present and "{closure" not in v:
+            gone.setdefault(norm(v), []).append(v)
+    out = {}
+    for n in present:
+        if n in voc or "{closure" in n:
+            continue
+        vs = gone.get(norm(n), [])
+        if len(vs) == 1:
+            out[n] = vs[0]
+    return out
+
+
+def _replaced_functions(j, taken):
+    """{present name: known name} for a private function that took a known function's place under another name AND another
+    signature (`fn priority_of(&self, id)` -> `fn terminal_rank(ranking: &[TerminalID], wanted: TerminalID)`): the known function
+    is gone, and exactly one function the rules do not know is called from exactly the functions that called it in the reference
+    tree (rules/vocabulary_sigs.json, "callers"), returning the same type.  `taken`: names already explained otherwise."""
+    ref = vocabulary_sigs()["functions"]
+    import os
+    try:
+        with open(os.path.join(os.path.dirname(__file__), "vocabulary.txt")) as fh:
+            voc = set(l.rstrip("\n") for l in fh if l.strip())
+    except OSError:
+        return {}
+    fns = j["functions"]
+    present = {f["name"] for f in fns}
+    key2name = {f["key"]: f["name"] for f in fns}
+    root_of = {c["key"]: c.get("root") for c in j.get("closures", [])}
+    cur_callers = {}
+    for f in fns:
+        owner = key2name.get(root_of.get(f["key"]) or f["key"], f["name"])
+        for b in f.get("blocks", []):
+            t = b.get("term") or {}
+            if t.get("k") == "call":
+                n = key2name.get(t.get("resolved") or t.get("callee"))
+                if n and n != owner:
+                    cur_callers.setdefault(n, set()).add(owner)
+    missing = {n: r for n, r in ref.items() if n not in present and not n.startswith("<") and r.get("callers") and n not in taken.values()}
+    unknown = [f for f in fns if f.get("kind") != "Closure" and f["name"] not in voc and not f["name"].startswith("<") and not f.get("exp") and f["name"] not in taken]
+    out = {}
+    for n, r in missing.items():
+        hits = [f["name"] for f in unknown if sorted(cur_callers.get(f["name"], ())) == r["callers"] and f["locals"][0]["ty"] == r["ret"]]
+        others = [m for m, r2 in missing.items() if m != n and r2["callers"] == r["callers"] and r2["ret"] == r["ret"]]
+        if len(hits) == 1 and not others:
+            out[hits[0]] = n
+    return out
+
+
+def _permute_params(j):
+    """A known function whose parameters were only *reordered* (same types, each occurring once) is read in the order the rules
+    know: its parameter locals are renumbered and the arguments of every direct call are permuted.  (With two parameters of
+    one type the order cannot be recovered from the types; nothing is done then.)"""
+    ref = vocabulary_sigs()["functions"]
+    done = {}
+    for f in j["functions"]:
+        r = ref.get(f["name"])
+        if not r or f.get("kind") == "Closure":
+            continue
+        argc = f.get("argc", 0)
+        cur = [f["locals"][i]["ty"] for i in range(1, argc + 1)]
+        if argc != len(r["tys"]) or cur == r["tys"] or sorted(cur) != sorted(r["tys"]) or len(set(cur)) != len(cur):
+            continue
+        # new local number of the parameter that is now at position c (1-based): the known position of its type
+        newl = {c + 1: r["tys"].index(cur[c]) + 1 for c in range(argc)}
+
+        def walk(o):
+            if isinstance(o, dict):
+                if isinstance(o.get("l"), int) and o["l"] in newl:
+                    o["l"] = newl[o["l"]]
+                for v in o.values():
+                    if isinstance(v, (dict, list)):
+                        walk(v)
+            elif isinstance(o, list):
+                for v in o:
+                    if isinstance(v, (dict, list)):
+                        walk(v)
+        walk(f.get("blocks", []))
+        walk(f.get("debug", []))
+        walk(f.get("promoted", []))
+        for d in f.get("debug", []):
+            if d.get("arg") in newl:
+                d["arg"] = newl[d["arg"]]
+        locs = list(f["locals"])
+        for c in range(1, argc + 1):
+            f["locals"][newl[c]] = locs[c]
+        done[f["key"]] = newl
+    if done:
+        for f in j["functions"]:
+            for b in f.get("blocks", []):
+                t = b.get("term") or {}
+                if t.get("k") == "call":
+                    nl = done.get(t.get("resolved")) or done.get(t.get("callee"))
+                    if nl and len(t.get("args", [])) == len(nl):
+                        old = list(t["args"])
+                        for c in range(1, len(nl) + 1):
+                            t["args"][nl[c] - 1] = old[c - 1]
+        j["permuted_params"] = {k: {str(a): b for a, b in v.items()} for k, v in done.items()}
+
+
 def _canonical_names(j):
     """Parameters and struct fields that were only renamed are read under the names the rules know (rules/vocabulary_sigs.json):
     a parameter of a known function by its position (types unchanged), a field of a known struct by its index (same number of
@@ -804,15 +916,22 @@ def _canonical_names(j):
         if not r or f.get("kind") == "Closure":
             continue
         argc = f.get("argc", 0)
-        if argc != len(r["args"]) or [f["locals"][i]["ty"] for i in range(1, argc + 1)] != r["tys"]:
-            continue
+        cur_tys = [f["locals"][i]["ty"] for i in range(1, argc + 1)]
+        same_sig = argc == len(r["args"]) and cur_tys == r["tys"]
+
         ren = {}
         used = set(d["name"] for d in f.get("debug", []))
         for d in f.get("debug", []):
             a = d.get("arg")
             if a and 1 <= a <= argc and d.get("p") and not d["p"]["pj"]:
-                want = r["args"][a - 1]
-                if want and d["name"] != want and want not in used and d["name"] not in ren:
+                if same_sig:
+                    want = r["args"][a - 1]
+                else:
+                    # another signature (a function that took the known one's place): a parameter whose type occurs once here
+                    # and once in the known signature is that parameter
+                    ty = cur_tys[a - 1]
+                    want = r["args"][r["tys"].index(ty)] if cur_tys.count(ty) == 1 and r["tys"].count(ty) == 1 else None
+                if want and want != "self" and d["name"] != want and want not in used and d["name"] not in ren:
                     ren[d["name"]] = want
         if not ren:
             continue
@@ -828,6 +947,7 @@ def _canonical_names(j):
                         d["name"] = ren[d["name"]]
     # ---- fields
     fmap = {}
+    omap = {}
     for a in j.get("adts", []):
         rf = ref["adts"].get(a.get("path"))
         if not rf or str(a.get("kind")).lower() != "struct" or not a.get("variants"):
@@ -836,16 +956,58 @@ def _canonical_names(j):
         if len(cur) != len(rf):
             continue
         cur_names = [fl["name"] for fl in cur]
+        ref_names = [x[0] for x in rf]
         m = {}
-        for i, fl in enumerate(cur):
+        # fields the rules do not know vs. known fields that are gone: paired by position when the type agrees there, else by
+        # type when exactly one unknown and one missing field have it (the declaration order may have changed as well)
+        unknown = [(i, fl) for i, fl in enumerate(cur) if fl["name"] not in ref_names]
+        missing = [(i, x) for i, x in enumerate(rf) if x[0] not in cur_names]
+        for i, fl in unknown:
             want, wty = rf[i]
-            if fl["name"] != want and want not in cur_names and fl["ty"]["s"] == wty and fl["name"] not in [x[0] for x in rf]:
+            if want not in cur_names and fl["ty"]["s"] == wty:
                 m[fl["name"]] = want
+        for i, fl in unknown:
+            if fl["name"] in m:
+                continue
+            ty = fl["ty"]["s"]
+            cands = [x[0] for _, x in missing if x[1] == ty and x[0] not in m.values()]
+            same = [f2 for _, f2 in unknown if f2["ty"]["s"] == ty and f2["name"] not in m]
+            if len(cands) == 1 and len(same) == 1:
+                m[fl["name"]] = cands[0]
         if m:
             fmap[a["path"]] = m
             for fl in cur:
                 if fl["name"] in m:
                     fl["name"] = m[fl["name"]]
+        # the declaration order of the fields (read positionally in struct literals): back to the known order
+        now = [fl["name"] for fl in cur]
+        if now != ref_names and sorted(now) == sorted(ref_names) and len(set(now)) == len(now):
+            omap[a["path"]] = [ref_names.index(n) for n in now]      # current index -> known index
+            a["variants"][0]["fields"] = [cur[now.index(n)] for n in ref_names]
+    if omap:
+        def walk_o(o):
+            if isinstance(o, dict):
+                if o.get("k") == "field" and o.get("adt") in omap and isinstance(o.get("i"), int) and not o.get("variant") and o["i"] < len(omap[o["adt"]]):
+                    o["i"] = omap[o["adt"]][o["i"]]
+                if o.get("k") == "aggregate" and o.get("path") in omap and isinstance(o.get("fields"), list) and len(o["fields"]) == len(omap[o["path"]]):
+                    perm = omap[o["path"]]
+                    nf, nn = [None] * len(perm), [None] * len(perm)
+                    for ci, ki in enumerate(perm):
+                        nf[ki] = o["fields"][ci]
+                        if o.get("field_names") and ci < len(o["field_names"]):
+                            nn[ki] = o["field_names"][ci]
+                    o["fields"] = nf
+                    if o.get("field_names"):
+                        o["field_names"] = nn
+                for v in o.values():
+                    if isinstance(v, (dict, list)):
+                        walk_o(v)
+            elif isinstance(o, list):
+                for v in o:
+                    if isinstance(v, (dict, list)):
+                        walk_o(v)
+        walk_o(j["functions"])
+        j["reordered_fields"] = {k: v for k, v in omap.items()}
     if fmap:
         def walk(o):
             if isinstance(o, dict):
@@ -910,9 +1072,17 @@ class Facts:
         del raw
         global ALIASES
         ALIASES = _aliases([f["name"] for f in self.j["functions"]])
+        for k_, v_ in _lifetime_aliases(self.j["functions"]).items():
+            ALIASES.setdefault(k_, v_)
         renamed_ = _renamed_functions(self.j["functions"])
+        renamed_.update({k_: v_ for k_, v_ in ALIASES.items() if re.sub(r"'\w+", "'_", k_) == re.sub(r"'\w+", "'_", v_)})
         for k_, v_ in renamed_.items():
             ALIASES.setdefault(k_, v_)
+        try:
+            for k_, v_ in _replaced_functions(self.j, dict(ALIASES)).items():
+                ALIASES.setdefault(k_, v_)
+        except Exception:
+            pass
         self.aliases = dict(ALIASES)
         self.fns = {}
         self.by_name = defaultdict(list)
@@ -924,6 +1094,10 @@ class Facts:
                         f["alias_kind"] = "renamed"      # (same signature under another name: nothing about its parameters changed)
                     f["name"] = new_ + f["name"][len(old_):]
                     break
+        try:
+            _permute_params(self.j)
+        except Exception:
+            pass
         try:
             _canonical_names(self.j)
         except Exception:
